@@ -24,6 +24,21 @@ pub fn render(c: &Value) -> String {
         let elim = if c["kind"] == "int" && ((at == "A" && ma == "def") || (at == "B" && mb == "def")) { "! exit 3".to_string() } else { elim };
         return format!("{PRELUDE}begin\n  {ma} A = {rhs} that\n  {mb} B = {rhs} that\n  let a : A = {build} that\n  let b : {at} = a that\n  {elim}\nend\n");
     }
+    if c.get("fam").and_then(|f| f.as_str()) == Some("field") {
+        let n = c["n"].as_u64().unwrap() as usize;
+        let name = |i: u64| if i == 0 { "z".to_string() } else { format!("f{i}") };
+        let ty = (1..=n as u64).map(|i| format!("({} :: Int64)", name(i))).collect::<Vec<_>>().join(" * ");
+        let value = (1..=n as u64).map(|i| format!("{} = {i}", name(i))).collect::<Vec<_>>().join(", ");
+        let labels: Vec<u64> = c["labels"].as_array().map(|a| a.iter().map(|x| x.as_u64().unwrap()).collect()).unwrap_or_default();
+        let g = c["g"].as_u64().unwrap();
+        let body = match c["kind"].as_str().unwrap() {
+            | "proj" => format!("let p : P = ({value}) that\n  ! exit p/{}", name(g)),
+            | "projpat" => format!("let p : P = ({value}) that\n  let (/{}) = p in\n  ! exit {}", name(g), name(g)),
+            | "build" => format!("let p : P = ({}) that\n  ! exit p/f1", labels.iter().enumerate().map(|(i, l)| format!("{} = {}", name(*l), i + 1)).collect::<Vec<_>>().join(", ")),
+            | _ => format!("let p : P = ({value}) that\n  let ({}) = p in\n  ! exit a{n}", labels.iter().enumerate().map(|(i, l)| format!("{} = a{}", name(*l), i + 1)).collect::<Vec<_>>().join(", ")),
+        };
+        return format!("{PRELUDE}begin\n  let P = {ty} that\n  {body}\nend\n");
+    }
     let pkg = c["pkg"].as_str().unwrap();
     let path: Vec<&str> = c["path"].as_array().unwrap().iter().map(|s| s.as_str().unwrap()).collect();
     let (pkg_ty, pkg_def, mut val, mut pat) = if pkg == "box" {
@@ -117,7 +132,8 @@ pub fn replay_exists(cases_path: &str, out_path: &str) {
                 }
                 | (Verdict::Rejected { messages }, _) => {
                     let first = messages.first().cloned().unwrap_or_default();
-                    let got = if first.contains("Existential witness escapes") { "escape" } else if first.contains("Type mismatch") { "mismatch" } else { "other" };
+                    let got = if first.contains("Existential witness escapes") { "escape" } else if first.contains("Type mismatch") { "mismatch" }
+                              else if first.contains("Missing named field") { "missingfield" } else if first.contains("Named label mismatch") { "labelmismatch" } else { "other" };
                     class = format!("rejected-{got}");
                     if want == "accept" {
                         findings.push(mk("rejects-well-typed", format!("{} opened by {} under path {:?}, body {}, context {}: the rule accepts, the checker says {first}", c["pkg"], c["opener"], c["path"], c["body"], c["ctx"])));
